@@ -108,6 +108,9 @@ func checkC09(p *Prog, res *Result, tier string) {
 	res.rule("C09-R8", "in pkg/backend the error of an engine read (Iter, Next, Get) is returned unless it was found nil or classified (io.EOF, ErrKeyNotFound): 'not found' is answered only for end-of-data", 3)
 	res.rule("C09-R7", "the repair queue is a FIFO that loses nothing: push links the new entry behind the old tail and makes it the tail on every path", 2)
 	res.rule("C09-R9", "no classification test (errors.Is / == storage sentinel) looks at an error value that an enclosing branch has already classified as a different, disjoint class: such a test is dead and betrays a stale error variable", 8)
+	res.rule("C09-R10", "the repair queue has one consumer: the function that removes its head is reached from a single go statement that is not inside a loop (the removal does not look at what it removes)", 1)
+	res.rule("C09-R11", "the repair decides that there is nothing to repair from the getter's not-found error and the revision comparison, never from the length of the value it re-read (an empty value is a value)", 1)
+	res.rule("C09-R12", "the request handlers do not crash on the error path of a write (C20-R11): the repair queue is in memory and dies with the process", 2)
 	res.rule("C09-R6", "on the write path the error of a committing call is returned as is (or wrapped) unless it was found nil or classified (errors.Is / == sentinel / conflict assertion)", 6)
 	res.rule("C09-R5", "a nil error is returned to the client only after success or a definite failure class", 6)
 
@@ -191,6 +194,20 @@ func checkC09(p *Prog, res *Result, tier string) {
 	}
 	checkContradictoryClassification(p, res, "C09-R9")
 	checkSentinelIdentity(p, res, "C09-R9")
+	checkSingleRepairConsumer(p, res, "C09-R10")
+	checkRepairPresenceByError(p, res, "C09-R11")
+	// R12: the repair queue lives in memory. The error path of a write handler is where an unknown outcome is reported:
+	// a handler that panics there (a response that is nil whenever the error is not, dereferenced) takes the process
+	// and the queue with it, and the write is never repaired (C20-R11, server layer)
+	{
+		sub := newResult("C20")
+		checkNilBeliefContradiction(p, sub, "C20-R11")
+		for _, o := range sub.Obls {
+			if strings.Contains(o.Construct, "pkg/server") || o.Construct == "nil-belief contradictions" {
+				res.add("C09-R12", o.Rule+" "+o.Construct, o.Status, o.Pos, o.Detail)
+			}
+		}
+	}
 	// sentinel discipline: wrapped sentinels compared with ==
 	for _, g := range []*ssa.Global{uncertain, casFailed} {
 		cmps := sentinelEqComparisons(p, g)
@@ -1156,4 +1173,175 @@ func guardedByEmptyQueue(p *Prog, b *ssa.BasicBlock, minRev *types.Func) bool {
 		}
 	}
 	return false
+}
+
+// checkSingleRepairConsumer (C09-R10): the repair loop looks at the head of the queue, repairs it and then removes
+// "the head" without looking again - correct only while nobody else removes entries in between. The function that
+// removes the head must therefore run on one goroutine: walking up from its callers, the go statements met on the way
+// are a single one, and it does not sit in a loop (a round started per tick overlaps the previous one as soon as the
+// engine is slow, and the late round removes an entry nobody examined: an unknown-outcome write is never repaired and
+// stops holding compaction back).
+func checkSingleRepairConsumer(p *Prog, res *Result, rule string) {
+	sp := p.ssaPkg("pkg/backend/retry")
+	var pops []*ssa.Function
+	for _, f := range p.AllFuncs {
+		if f.Pkg != sp || f.Blocks == nil || f.Signature.Recv() == nil || f.Signature.Params().Len() != 0 || f.Signature.Results().Len() != 0 || f.Synthetic != "" {
+			continue
+		}
+		recv := f.Params[0]
+		writes := false
+		for _, b := range f.Blocks {
+			for _, ins := range b.Instrs {
+				if st, ok := ins.(*ssa.Store); ok {
+					if fa, ok := st.Addr.(*ssa.FieldAddr); ok && resolve(fa.X) == ssa.Value(recv) {
+						if _, isPtr := fieldOf(fa).Type().Underlying().(*types.Pointer); isPtr {
+							writes = true
+						}
+					}
+				}
+			}
+		}
+		if writes {
+			pops = append(pops, f)
+		}
+	}
+	if len(pops) == 0 {
+		res.und(rule, "repair queue: removal of the head", "-", "no parameterless method of the repair package rewrites a link of its receiver")
+		return
+	}
+	p.buildCallers()
+	for _, pop := range pops {
+		construct := funcName(pop) + ": one consumer"
+		var goSites []ssa.Instruction
+		var inLoop ssa.Instruction
+		seen := map[*ssa.Function]bool{}
+		var up func(f *ssa.Function, d int)
+		up = func(f *ssa.Function, d int) {
+			if seen[f] || d > 8 {
+				return
+			}
+			seen[f] = true
+			for _, cs := range p.callers[f] {
+				if cs.Parent() == nil || cs.Parent().Pkg == nil || !strings.HasPrefix(cs.Parent().Pkg.Pkg.Path(), modPath) {
+					continue
+				}
+				if g, ok := cs.(*ssa.Go); ok {
+					goSites = append(goSites, g)
+					if loopOf(g.Block()) != nil {
+						inLoop = g
+					}
+					continue
+				}
+				up(cs.Parent(), d+1)
+			}
+			// a function literal: where it is made is where it is called or started
+			if f.Parent() != nil {
+				for _, b := range f.Parent().Blocks {
+					for _, ins := range b.Instrs {
+						mc, ok := ins.(*ssa.MakeClosure)
+						if !ok || mc.Fn != ssa.Value(f) || mc.Referrers() == nil {
+							continue
+						}
+						for _, ref := range *mc.Referrers() {
+							if g, ok := ref.(*ssa.Go); ok && g.Common().Value == ssa.Value(mc) {
+								goSites = append(goSites, g)
+								if loopOf(g.Block()) != nil {
+									inLoop = g
+								}
+							}
+						}
+					}
+				}
+			}
+		}
+		up(pop, 0)
+		uniq := map[ssa.Instruction]bool{}
+		for _, g := range goSites {
+			uniq[g] = true
+		}
+		switch {
+		case inLoop != nil:
+			res.bad(rule, construct, p.pos(inLoop.Pos()), "the function that removes the head of the repair queue is reached from a go statement inside a loop: repair rounds overlap when the engine is slow, and the round that finishes late removes an entry that nobody examined - that unknown-outcome write is never repaired, never announced, and no longer holds compaction back")
+		case len(uniq) > 1:
+			var at ssa.Instruction
+			for g := range uniq {
+				if at == nil || g.Pos() > at.Pos() {
+					at = g
+				}
+			}
+			res.bad(rule, construct, p.pos(at.Pos()), fmt.Sprintf("the function that removes the head of the repair queue is reached from %d go statements: two consumers remove each other's entries", len(uniq)))
+		case len(uniq) == 0:
+			res.und(rule, construct, p.pos(pop.Pos()), "no go statement starts the repair loop")
+		default:
+			res.ok(rule, construct, p.pos(goSites[0].Pos()), "reached from one go statement outside any loop")
+		}
+	}
+}
+
+// checkRepairPresenceByError (C09-R11): the repair re-reads the key through a getter that reports "no such key" by
+// its error. The value it returns may be empty (the etcd path accepts empty values): a test of its length files a
+// write that is in the store under "nothing there", and the write is never re-written nor announced.
+func checkRepairPresenceByError(p *Prog, res *Result, rule string) {
+	sp := p.ssaPkg("pkg/backend/retry")
+	errT := types.Universe.Lookup("error").Type()
+	n := 0
+	for _, f := range p.AllFuncs {
+		if f.Pkg != sp || f.Blocks == nil {
+			continue
+		}
+		for _, c := range callsIn(f) {
+			call, ok := c.(*ssa.Call)
+			if !ok {
+				continue
+			}
+			tup, ok := call.Type().(*types.Tuple)
+			if !ok || tup.Len() < 2 {
+				continue
+			}
+			sl, ok := tup.At(0).Type().Underlying().(*types.Slice)
+			if !ok {
+				continue
+			}
+			if b, ok := sl.Elem().Underlying().(*types.Basic); !ok || b.Kind() != types.Byte {
+				continue
+			}
+			if !types.Identical(tup.At(tup.Len()-1).Type(), errT) {
+				continue
+			}
+			n++
+			construct := fmt.Sprintf("%s: value re-read for the repair #%d", funcName(f), n)
+			var bad ssa.Instruction
+			for _, ref := range *call.Referrers() {
+				ex, ok := ref.(*ssa.Extract)
+				if !ok || ex.Index != 0 || ex.Referrers() == nil {
+					continue
+				}
+				for _, r2 := range *ex.Referrers() {
+					lc, ok := r2.(*ssa.Call)
+					if !ok {
+						continue
+					}
+					if bi, ok := lc.Common().Value.(*ssa.Builtin); !ok || bi.Name() != "len" || lc.Referrers() == nil {
+						continue
+					}
+					for _, r3 := range *lc.Referrers() {
+						if bo, ok := r3.(*ssa.BinOp); ok && (isZeroConst(bo.X) || isZeroConst(bo.Y)) {
+							switch bo.Op {
+							case token.EQL, token.NEQ, token.GTR, token.LSS, token.LEQ, token.GEQ:
+								bad = bo
+							}
+						}
+					}
+				}
+			}
+			if bad != nil {
+				res.bad(rule, construct, p.pos(bad.Pos()), "the repair takes an empty value for 'the key is not there' (which the getter reports by its error): an unknown-outcome write of an empty value that did land is dropped from the queue without being re-written - it stays readable but is never announced to watchers")
+			} else {
+				res.ok(rule, construct, p.pos(call.Pos()), "presence is decided by the getter's error, not by the length of the value")
+			}
+		}
+	}
+	if n == 0 {
+		res.und(rule, "repair: re-read", "-", "no call with a (value, .., error) result in the repair package")
+	}
 }
